@@ -96,6 +96,19 @@ def main():
 
     algo = cfg.pop("algo")
     out = {}
+    if cfg.pop("prelude", False):
+        # process history is ambient state too: another training run of the
+        # same routine (other seed, own networks / buffer / environment) is
+        # executed first and thrown away.  Module-level caches or state that
+        # survive a call make the measured run depend on it.
+        import warnings
+        pre = dict(cfg, seed=cfg["seed"] + 7777)
+        with warnings.catch_warnings():
+            warnings.simplefilter("ignore")
+            if algo.startswith("sched:"):
+                run_sched(algo[6:], pre)
+            else:
+                make_run(algo, pre).call()
     if algo.startswith("sched:"):
         out = run_sched(algo[6:], cfg)
     else:
